@@ -458,7 +458,7 @@ def run(ck):
     model = Model("drv_c06")
 
     # ---------------------------------------------------------- SNEP
-    n_snep = 6000 if ck.thorough else 700
+    n_snep = 30000 if ck.thorough else 3000
     lines, reals, scs = [], [], []
     for i in range(n_snep):
         sc = gen_snep(ck, rng, ndefs)
@@ -495,7 +495,7 @@ def run(ck):
     reset = 1 if pob["raw"] == [r for r, _ in probe["reqs"]] else 0
     ck.notes.append("handover server variant in the tree: %s" % ("buffer reset after each request" if reset else
                                                                  "as found (F29): buffer kept for the whole connection"))
-    n_ho = 3000 if ck.thorough else 400
+    n_ho = 12000 if ck.thorough else 1500
     lines, reals = [], []
     prefix_reqs, prefix_real = [], []
     for i in range(n_ho):
